@@ -120,8 +120,10 @@ Definition ae_body_of (e : env) (from : nid) (m : msg) (c : N) (s : S) : S :=
   | AESnap _ _ p =>
     let (s, done) := set_transmission p s in
     if done && load_dump_ok s then
-      let s := send_next_idx from None false true (load_dump e true s) in
-      ae_commit c (Some (last_idx (log (nd s)))) s
+      let s := load_dump e true s in
+      let v := applied (nd s) in
+      let s := send_next_idx from (Some (v + 1)) false true s in
+      ae_commit c (Some v) s
     else if done then ae_commit c None (load_dump e true s)
     else ae_commit c None s
   | _ => s
@@ -246,10 +248,13 @@ Proof.
   destruct (stored (sr (nd s))) as [[sn|]|]; try reflexivity.
   destruct (cl && _); [fr|].
   destruct (self_ver (nd s) <? s_ver sn); [reflexivity|].
-  match goal with |- π (nd (if dyn (cf e) then update_cluster ?l ?s1 else ?s2)) = _ =>
-    assert (E : π (nd s2) = π (nd s)) end.
-  { fr. }
-  destruct (dyn (cf e)); [rewrite fr_update_cluster|]; exact E.
+  cbv zeta.
+  match goal with |- context [update_cluster ?l ?s4] => set (s5 := s4) end.
+  assert (E : π (nd s5) = π (nd s)).
+  { subst s5. fr. }
+  clearbody s5.
+  destruct (dyn (cf e)); [|exact E].
+  destruct (cl && _); rewrite ?fr_apply_membership, fr_update_cluster; exact E.
 Qed.
 
 Lemma fr_ae_body e x nx s : π (nd (fst (ae_body e x nx s))) = π (nd s).
